@@ -93,10 +93,18 @@ func (p *TriggerPool) sendJobsForExecution(numJobs int) {
 		return
 	}
 
+	// Once max iterations has been reached nothing can start anymore; whatever is
+	// still pending is discarded silently instead of being reported as dropped.
+	maxIterationsReached := p.manager.MaxIterationsReached()
+
 	jobsDiscarded := p.jobsToExecute.set(numJobs)
 	p.jobsAvailableCond.Broadcast()
 
 	p.jobsAvailableCond.L.Unlock()
+
+	if maxIterationsReached {
+		return
+	}
 
 	for range jobsDiscarded {
 		p.manager.activeScenario.RecordDroppedIteration()
